@@ -524,6 +524,33 @@ impl Default for SocketTable {
     }
 }
 
+/// Verification hook (area nettcp): raw sizes of the three indexes.
+/// Read-only. `netstat` hides `Closed` sockets, so leaks are not
+/// observable through it.
+#[cfg(turmoil_verif)]
+impl SocketTable {
+    /// `(sockets, binding keys, binding fds, connections, dangling)`
+    /// where `dangling` counts binding/connection index entries whose
+    /// fd is not in the socket table.
+    pub fn verif_tcp_counts(&self) -> (usize, usize, usize, usize, usize) {
+        let bind_fds: usize = self.bindings.values().map(Vec::len).sum();
+        let dangling = self
+            .bindings
+            .values()
+            .flat_map(|v| v.iter())
+            .chain(self.connections.values())
+            .filter(|fd| !self.sockets.contains_key(*fd))
+            .count();
+        (
+            self.sockets.len(),
+            self.bindings.len(),
+            bind_fds,
+            self.connections.len(),
+            dangling,
+        )
+    }
+}
+
 /// Ephemeral port allocator. Linear scan with a rotating cursor.
 #[derive(Debug)]
 pub struct PortAllocator {
